@@ -223,6 +223,40 @@ pub fn c17(ctx: &Ctx) {
     }
     ev::observe("pixels_per_stratum", sj);
 
+    // every combination of the special component values (exact 0 / 1, their float neighbours, tiny values, mid values)
+    {
+        let sv: [f32; 14] = [0.0, 1.0, 0.99999994, 0.9999999, f32::from_bits(1), f32::MIN_POSITIVE, 1e-30, 5.9604645e-8, 1.4901161e-8, 0.5, 0.50000006, 0.49999997, 254.0 / 255.0, 1.0 / 255.0];
+        let mut lattice = Vec::with_capacity(sv.len().pow(3));
+        for a in sv {
+            for b in sv {
+                for c in sv {
+                    lattice.push([a, b, c]);
+                }
+            }
+        }
+        let mut acc = Acc { h: Worst::new(), s: Worst::new(), l: Worst::new(), rt: Worst::new(), range_bad: [0; 4], first_range_bad: None, sext: [0; 7] };
+        if let Err(e) = check(&lattice, &mut acc) {
+            ev::violation("C17|dims", e, J::Null);
+        }
+        let hslof = |p: [f32; 3]| Hsl::from(LinearRgb::new(vec![p], 1, 1).unwrap()).data()[0];
+        for (name, w, tol) in [("hue", &acc.h, 0.01), ("saturation", &acc.s, 1e-4), ("lightness", &acc.l, 1e-6), ("roundtrip", &acc.rt, 1e-5)] {
+            if let Some(p) = w.at {
+                if !(w.err <= tol) {
+                    ev::violation(
+                        format!("C17|{name}|special-values"),
+                        format!("special-value pixel {p:?}: {name} error {:.3e} > {tol:e}; HSL {:?}", w.err, hslof(p)),
+                        J::obj().set("kind", "hsl").set("check", name).set("pixel", px_json(p)).set("hsl", hslof(p)),
+                    );
+                }
+            }
+        }
+        if let Some((p, h)) = acc.first_range_bad {
+            ev::violation("C17|range|special-values", format!("special-value pixel {p:?} -> {h:?} leaves the documented ranges"), J::obj().set("kind", "hsl").set("check", "range").set("pixel", px_json(p)).set("hsl", h));
+        }
+        ev::observe("special_value_lattice_pixels", lattice.len());
+        ev::add_evals(lattice.len() as u64);
+    }
+
     // HSL -> RGB anchors: L=0 is black, L=1 is white for every hue/saturation
     let mut rng = Rng::new(ctx.seed, 0x0C17_FFFF);
     let mut hsl_in: Vec<[f32; 3]> = Vec::new();
